@@ -614,6 +614,12 @@ SPLITTERS = {
                       "f|contains", ["MD5=" + "0a" * 16, "SHA1=" + "1b" * 20], ["FileMD5", "FileSHA1"]),
     "extract_fields": ({"type": "extract_fields", "regex": "(?P<a>[a-z]+)-(?P<b>[a-z]+)",
                         "field_name_conditions": [{"type": "include_fields", "fields": ["mf"]}]}, "f", "xx-yy", ["a", "b"]),
+    # several matching values: the replacement is a detection per value nested in the replacing detection
+    "extract_fields-two-values": ({"type": "extract_fields", "regex": "(?P<a>[a-z]+)-(?P<b>[a-z]+)",
+                                   "field_name_conditions": [{"type": "include_fields", "fields": ["mf"]}]}, "f", ["xx-yy", "zz-ww"], ["a", "b", "a", "b"]),
+    "extract_fields-three-values-all": ({"type": "extract_fields", "regex": "(?P<a>[a-z]+)-(?P<b>[a-z]+)",
+                                         "field_name_conditions": [{"type": "include_fields", "fields": ["mf"]}]}, "f|all", ["xx-yy", "zz-ww", "q-r"], ["a", "b"] * 3),
+    "mapping-one-to-many-value-list": ({"type": "field_name_mapping", "mapping": {"mf": ["t1", "t2", "t3"]}}, "f", ["v", "w"], ["t1", "t2", "t3"]),
 }
 
 
